@@ -18,6 +18,7 @@ import random
 
 from .. import common as C
 from .. import enc_expr as E
+from .. import forms as F
 from .. import gen_graph as G
 from ..oracles import id_run as R
 from ..oracles import scm_eval as S
@@ -31,7 +32,16 @@ RULE = ("ADMGs with 2-5 nodes (thorough: up to 6; half random, half mutations of
         "y0.examples graphs with <= 6 nodes and the F3 witness (napkin). Every returned estimand is evaluated exactly on "
         "2-3 random positive SCMs compatible with the graph at every assignment. A case is non-trivial when ID returned "
         "an estimand and the run used at least one of lines 4, 6, 7.")
+FORMS_NOTE = ("argument FORMS (harness/forms.py, harness/oracles/id_run.py id_slots; chosen deterministically per case, stored in the case, "
+              "tagged form_*): treatments / outcomes / conditions as set / frozenset / list / tuple / dict keys / generator / iterator / "
+              "map or a bare Variable for a one-element set (`Variable | set[Variable]`, normalised by _ensure_set); the "
+              "Identification made by Identification(query=Query(..), graph=..) by keyword or by position, by "
+              "Identification.from_parts, or by Identification.from_expression from P[X](Y | Z) and from P(Y @ X | Z @ X); "
+              "identify_outcomes positional or by keyword; 'no conditions' as omitted / None / an empty set; the graph through "
+              "every public constructor of NxMixedGraph. The model takes lists; independence of the form is a runtime clause "
+              "decided by correspondence + oracle")
 ASSUMPTIONS = [
+    FORMS_NOTE,
     "model class of the theorem and of the oracle: discrete variables, positive rational parameters, independent root latents each shared by a bidirected clique (Y0/Spec/Scm.lean `Scm.Compatible`); latents with parents, continuous variables and non-positive distributions are outside the class",
     "`graph.topological_sort()` is a parameter `topo` of the model; `id_sound` assumes only that it returns linear extensions (trusted: networkx)",
     "reading convention of expressions: Y0/Spec/Sem.lean `den` (P(C|Pa) = pr(C ∪ Pa)/pr(Pa), Sum binds its ranges, field division)",
@@ -70,7 +80,27 @@ def _example_cases(max_nodes):
     return out
 
 
+VIA = {"via": ("identify", "identify", "identify_outcomes")}      # the low-level entry point and the idiomatic wrapper
+
+
+def _slots(case):
+    via = F.forms_of(case, VIA)["via"]
+    sl = R.id_slots(case["X"], case["Y"], None, via)
+    # an EMPTY conditions collection sends identify_outcomes through IDC (see C02); C01 is about ID estimands
+    if "no_conditions" in sl:
+        sl["no_conditions"] = tuple(o for o in sl["no_conditions"] if via == "identify" or not o.startswith("empty"))
+    return dict(sl, **VIA)
+
+
+def _forms(case):
+    return F.forms_of(case, _slots(case))
+
+
 def cases(rng: random.Random, tier: str):
+    return [F.assign(c, _slots(c)) for c in _cases(rng, tier)]
+
+
+def _cases(rng: random.Random, tier: str):
     nmax = 5 if tier == "quick" else 6
     out = [dict(c) for c in _corpus()] + _example_cases(nmax + 1 if tier == "quick" else 7)
     # structured: napkin-like graphs whose outcome district has several nodes (line 7 -> 6 / 7 -> 2 -> 6 / 7 -> 7 with
@@ -128,7 +158,8 @@ def semantic_check(case, expr, *, models=None):
 
 def run_python(case):
     g = case["g"]
-    r = R.run_identify(g, case["X"], case["Y"])
+    fm = _forms(case)
+    r = R.run_identify(g, case["X"], case["Y"], via=fm["via"], forms=fm)
     valid = is_valid(case)
     V = G.all_nodes(g)
     tags = {"kind": case.get("label", "?").split(":")[0], "n_nodes": len(V), "valid": valid,
@@ -136,9 +167,12 @@ def run_python(case):
             "has_isolated": len(V) > len({x for e in g["di"] + g["bi"] for x in e})}
     tags.update(R.line_tags(r["lines"]))
     tags.update(R.pp_tags(r.get("pp")))
+    tags.update(R.id_form_tags(case, fm))
     if tags["kind"] == "structured":
         tags["structured_kind"] = case["label"].split(":", 1)[1]
     fail = None
+    if r["exc"] == "ConstructorFault":
+        fail = r["exc_msg"]
     if valid and r["exc"] is None:
         fail = semantic_check(case, r["expr"])
         tags["evaluated_on_scms"] = n_models(case)
@@ -153,11 +187,12 @@ _memo = {}
 def _run_memo(case):
     """the real run of a case, once per process for `request` and `canon_model` (both run serially in the main
     process; the run is deterministic within a process — same hash seed, same recorded topological orders)"""
-    k = json.dumps([case["g"], case["X"], case["Y"]], sort_keys=True)
+    fm = _forms(case)
+    k = json.dumps([case["g"], case["X"], case["Y"], fm], sort_keys=True)
     if k not in _memo:
         if len(_memo) > 50000:
             _memo.clear()
-        _memo[k] = R.run_identify(case["g"], case["X"], case["Y"])
+        _memo[k] = R.run_identify(case["g"], case["X"], case["Y"], via=fm["via"], forms=fm)
     return _memo[k]
 
 
@@ -166,7 +201,7 @@ def request(case):
     tape, _ = R.tape_sexp(r["tape"])
     g = case["g"]
     gs = C.graph_sexp(G.all_nodes(g), g["di"], g["bi"])
-    return C.enc(["id", "identify", gs, sorted(set(case["X"])), sorted(set(case["Y"])), tape])
+    return C.enc(["id", _forms(case)["via"], gs, sorted(set(case["X"])), sorted(set(case["Y"])), tape])
 
 
 def canon_model(case, rep):
